@@ -6,6 +6,7 @@ package c06
 import (
 	"fmt"
 	"math"
+	"os"
 	"strconv"
 	"strings"
 
@@ -69,12 +70,37 @@ const (
 )
 
 type genOpts struct {
-	lib      bool   // parser campaign: full measurement alphabet, lines without timestamp, arbitrary timestamps
-	prefix   string // measurement name prefix, unique per case
-	minLines int
-	maxLines int
+	lib       bool   // parser campaign: full measurement alphabet, lines without timestamp, arbitrary timestamps
+	prefix    string // measurement name prefix, unique per case
+	minLines  int
+	maxLines  int
+	bigBodies bool // now and then a body larger than the handler's read block (valid lines only)
 	// known-finding classes let through (only the dedicated known-finding tests set these)
 	allowBigInt, allowFloatFast, allowTSOverflow, allowGarbageF, allowQuoteInside bool
+}
+
+// withEnvSwitches lets known-finding classes through that are named in C06_ALLOW (comma separated: bigint,
+// floatfast, tsoverflow, garbagef, quoteinside). campaign.py can set it per budget (`env`) once a finding is fixed;
+// "strict" additionally judges the acknowledgement of requests in which a broken line is followed by another line.
+func withEnvSwitches(o genOpts) (genOpts, bool) {
+	strict := false
+	for _, k := range strings.Split(os.Getenv("C06_ALLOW"), ",") {
+		switch strings.TrimSpace(k) {
+		case "bigint":
+			o.allowBigInt = true
+		case "floatfast":
+			o.allowFloatFast = true
+		case "tsoverflow":
+			o.allowTSOverflow = true
+		case "garbagef":
+			o.allowGarbageF = true
+		case "quoteinside":
+			o.allowQuoteInside = true
+		case "strict":
+			strict = true
+		}
+	}
+	return o, strict
 }
 
 type genOut struct {
@@ -82,6 +108,8 @@ type genOut struct {
 	classes  map[string]bool
 	excluded []string
 	nt       bool // non-trivial by the stated rule
+
+	tsOverflow bool // set by genTS for the line being generated (only with allowTSOverflow)
 }
 
 func (o *genOut) class(c string) { o.classes[c] = true }
@@ -381,9 +409,13 @@ func genTS(s src, o *genOut, opt genOpts, prec string, idx int) (text string, ns
 		return "", 0, false
 	default: // lib only: any non-negative int64
 		units = int64(s.u64("ts_any") >> 1)
-		if units > maxTimeNs/mult {
+		if units > maxTimeNs/mult && units <= math.MaxInt64/mult {
+			units = maxTimeNs / mult // math.MaxInt64 ns itself is refused by the points writer (time outside range), not by the parser
+		}
+		if units > math.MaxInt64/mult {
 			if opt.allowTSOverflow {
 				o.class("ts_overflow")
+				o.tsOverflow = true // the caller turns the line into a broken one (mutation timestamp_overflow)
 				return strconv.FormatInt(units, 10), units * mult, true
 			}
 			o.excluded = append(o.excluded, exTSOverflow)
@@ -464,7 +496,7 @@ var badNumbers = []string{"1e", "e5", "--1", "1e+", "0x10", "1_000", ".", "-", "
 var badTimestamps = []string{"12x", "1.5", "abc", "1e9", "0x10", "99999999999999999999", "9223372036854775808", "17 18", "1700000000i", "+5"}
 
 // mutate breaks the line by exactly one mutation; returns the mutation's name.
-func mutate(s src, o *genOut, opt genOpts, p *pointJ, lp *lineParts, sc *schema) string {
+func mutate(s src, o *genOut, opt genOpts, p *pointJ, lp *lineParts, sc *schema, prec string) string {
 	nk := len(mutKinds)
 	extra := []string{}
 	if opt.allowGarbageF {
@@ -472,6 +504,9 @@ func mutate(s src, o *genOut, opt genOpts, p *pointJ, lp *lineParts, sc *schema)
 	}
 	if opt.allowQuoteInside {
 		extra = append(extra, "quote_inside_unquoted")
+	}
+	if opt.allowTSOverflow && lp.ts != "" && precMult[prec] > 1 {
+		extra = append(extra, "timestamp_overflow")
 	}
 	k := s.n("mut_kind", nk+len(extra))
 	kind := ""
@@ -539,6 +574,11 @@ func mutate(s src, o *genOut, opt genOpts, p *pointJ, lp *lineParts, sc *schema)
 		lp.fields[fi] = key + "=" + []string{"1e309", "-1e400", "2e308", "1.8e308", "-1.7976931348623159e308"}[s.n("mut_of", 5)]
 	case "garbage_f":
 		lp.fields[fi] = key + "=" + []string{"abcf", "1.2.3f", "Inf", "inf", "-inf", "1i2f", "xf"}[s.n("mut_gf", 7)]
+	case "timestamp_overflow": // digits that fit int64, times the precision they do not
+		lp.ts = strconv.FormatInt(maxTimeNs/precMult[prec]+2+int64(s.n("mut_tsof", 1000)), 10)
+		if s.n("mut_tsof_wrap", 2) == 1 { // far enough to wrap around to a positive time
+			lp.ts = strconv.FormatInt(2*(math.MaxInt64/precMult[prec])+3+int64(s.n("mut_tsof2", 1000)), 10)
+		}
 	case "quote_inside_unquoted":
 		lp.fields[fi] = key + "=" + []string{`abc"def"`, `="x"`, `12"3"`}[s.n("mut_qi", 3)]
 	}
@@ -584,30 +624,43 @@ func genCase(s src, opt genOpts) *genOut {
 	nl := opt.minLines + s.n("nlines", opt.maxLines-opt.minLines+1)
 	size := 0
 	brokenMode := s.n("broken_mode", 4) // 0,1: none; 2: a few anywhere; 3: the last line (and maybe others)
+	// server campaign, one case in eight: a body of several 64 KiB read blocks, valid lines only (so that the
+	// admissible outcome does not depend on where the handler cuts the blocks)
+	big := opt.bigBodies && s.n("big_body", 8) == 7
+	if big {
+		nl = 700 + s.n("nlines_big", 801)
+		brokenMode = 0
+		o.class("body_several_read_blocks")
+	}
 	for i := 0; i < nl; i++ {
 		sc := schemas[s.n("schema", nsch)]
+		o.tsOverflow = false
 		p, lp := genPoint(s, o, opt, sc, cs.Precision, i)
 		l := lineJ{Valid: true, Exp: p}
 		breakIt := false
+		if o.tsOverflow { // out of the supported range: must be rejected, never stored at the wrapped time
+			l.Valid, l.Mut = false, "timestamp_overflow"
+			o.class("mut:timestamp_overflow")
+		}
 		switch brokenMode {
 		case 2:
 			breakIt = s.n("break", max(3, nl/2)) == 0
 		case 3:
 			breakIt = i == nl-1 || s.n("break", max(4, nl)) == 0
 		}
-		if breakIt {
+		if breakIt && l.Valid {
 			if s.n("broken_own_mst", 3) == 0 { // a measurement of its own: must not exist afterwards
 				own := opt.prefix + "b" + strconv.Itoa(i)
 				lp.head = strings.Replace(lp.head, escIdent(sc.mst, true, sc.escEq, sc.bare), own, 1)
 				p.Mst = own
 				cs.Extra = append(cs.Extra, own)
 			}
-			l.Mut = mutate(s, o, opt, p, lp, sc)
+			l.Mut = mutate(s, o, opt, p, lp, sc, cs.Precision)
 			l.Valid = false
 		}
 		l.Text = lp.text()
 		cs.Lines = append(cs.Lines, l)
-		if size += len(l.Text) + 40; size > 40000 {
+		if size += len(l.Text) + 40; size > 40000 && !big {
 			o.class("body_cut_at_40k") // the handler parses the body in blocks of 64 KiB: one request = one block
 			break
 		}
